@@ -6,6 +6,7 @@ import (
 	"fmt"
 	"io"
 	"net"
+	"strings"
 	gosync "sync"
 	"time"
 
@@ -167,6 +168,33 @@ func connScenarios() []scenario {
 				}
 				if got != "AAAAABBBBB" && got != "BBBBBAAAAA" {
 					return fmt.Sprintf("the peer read %q, which is neither order of the two Write calls", got)
+				}
+				return ""
+			}})
+		// two writers whose buffers span several records each (Write cuts them into 16 KiB records)
+		out = append(out, scenario{name: fmt.Sprintf("one-conn-large-write-write/%04x", suite), bound: 2, boundT: 3,
+			setup:   func() interface{} { return establish(suite, "") },
+			threads: []func(interface{}) interface{}{wr(strings.Repeat("A", 40000)), wr(strings.Repeat("B", 20000))},
+			accept: func(st interface{}, res []interface{}) string {
+				got, _ := st.(*established).drain()
+				if fmt.Sprint(res[0]) != "40000 <nil>" || fmt.Sprint(res[1]) != "20000 <nil>" {
+					return fmt.Sprintf("Write results %v", res)
+				}
+				a, b := strings.Repeat("A", 40000), strings.Repeat("B", 20000)
+				if got != a+b && got != b+a {
+					runs := ""
+					for i := 0; i < len(got); {
+						j := i
+						for j < len(got) && got[j] == got[i] {
+							j++
+						}
+						runs += fmt.Sprintf("%c*%d ", got[i], j-i)
+						i = j
+						if len(runs) > 120 {
+							break
+						}
+					}
+					return fmt.Sprintf("the peer read %d bytes in the runs %s- neither order of the two Write calls", len(got), runs)
 				}
 				return ""
 			}})
